@@ -306,28 +306,40 @@ _tpci_octet = st.sampled_from([0x00, 0x00, 0x01, 0x02, 0x03, 0x04, 0x40, 0x43, 0
 _apdu_tail = st.none() | st.sampled_from([bytes([0x81]), bytes([0x00]), bytes([0x80, 0x17]), bytes([0x80]) + bytes(range(14)), bytes([0x40, 0x01, 0x02]), bytes([0xD5, 0x00, 0x0B, 0x10, 0x01]), bytes([0xFF]), b""]) | st.binary(max_size=6)
 
 
+_KNOWN_GOOD = ((0, bytes([0x81])), (0, bytes([0x00])), (0, bytes([0x80, 0x17])), (0, bytes([0x80]) + bytes(range(14))), (0, bytes([0x40, 0x01, 0x02])), (3, bytes([0xD5, 0x00, 0x0B, 0x10, 0x01])), (1, bytes([0x00])), (3, bytes([0x00])))
+# GroupValueWrite / Read / Response, PropertyValueRead, IndividualAddressRead, DeviceDescriptorRead
+_GROUP_OCTETS = st.sampled_from([0x00, 0x00, 0x00, 0x04])
+_IND_OCTETS = st.sampled_from([0x00, 0x01, 0x03, 0x43, 0x7F, 0x80, 0x81, 0xC2, 0xFE, 0xC3, 0xD7]) | st.integers(0x40, 0x7F)
+
+
 @st.composite
 def frame_specs(draw):
-    which = draw(st.integers(0, 9))
+    which = draw(st.integers(0, 11))
     if which == 0:
         first = draw(st.sampled_from([0x2B, 0x10, 0x2D, 0x2F, 0xFB, 0xF5, 0xF7, 0xFC, 0xF6, 0xF0, 0xF1, 0x13, 0x25]) | st.integers(0, 255).filter(lambda c: c not in (0x29, 0x2E, 0x11)))
         body = draw(st.sampled_from([b"", bytes.fromhex("000b01341001") + b"\x07", build_ldata(0x29, True, 0x0901, tpdu_for(0))[1:]]) | st.binary(max_size=12))
         return {"kind": "raw", "raw": bytes([first]) + body}
-    code = draw(st.sampled_from([0x29, 0x29, 0x29, 0x2E, 0x11]))
+    clean = which >= 5  # a frame every field of which is defined: the model decides its consumer
+    code = draw(st.sampled_from([0x29, 0x29, 0x29, 0x29, 0x2E, 0x11]))
     group = draw(st.booleans())
-    spec = {"kind": "ldata", "code": code, "group": group, "dst": draw(_addr), "tpci": draw(_tpci_octet), "src": draw(st.sampled_from([SRC, 0, 0xFFFF]) | st.integers(0, 0xFFFF))}
+    octet = draw((_GROUP_OCTETS if group else _IND_OCTETS) if clean else _tpci_octet)
+    spec = {"kind": "ldata", "code": code, "group": group, "dst": draw(_addr), "tpci": octet, "src": draw(st.sampled_from([SRC, 0, 0xFFFF]) | st.integers(0, 0xFFFF))}
     spec["ctrl1"] = draw(st.sampled_from([0xBC, 0xB0, 0x94, 0x3C]) | st.integers(0, 255))
     spec["hop"] = draw(st.integers(0, 7))
-    spec["eff"] = draw(st.sampled_from([0, 0, 0, 0, 0, 0, 4, 7, 1, 15]))
+    spec["eff"] = 0 if clean else draw(st.sampled_from([0, 0, 0, 4, 7, 1, 15]))
     spec["addinfo"] = draw(st.sampled_from([b"", b"", b"", bytes([0x03, 0x02, 0x11, 0x22])]) | st.binary(max_size=8))
-    tail = draw(_apdu_tail)
     malformed = False
-    if tail is not None and not spec["tpci"] & 0x80:
-        spec["apdu"] = tail
-        malformed = True  # not one of the APDUs known to decode: delivery cannot be demanded
-        if (spec["tpci"] & 3, tail) in ((0, bytes([0x81])), (0, bytes([0x00])), (0, bytes([0x80, 0x17])), (0, bytes([0x80]) + bytes(range(14))), (0, bytes([0x40, 0x01, 0x02])), (3, bytes([0xD5, 0x00, 0x0B, 0x10, 0x01])), (1, bytes([0x00])), (3, bytes([0x00]))):
-            malformed = False  # GroupValueWrite/Read/Response, PropertyValueRead, IndividualAddressRead, DeviceDescriptorRead
-    if draw(st.integers(0, 11)) == 0:
+    if not octet & 0x80:
+        if clean:
+            good = [t for h, t in _KNOWN_GOOD if h == octet & 3]
+            if good and draw(st.booleans()):
+                spec["apdu"] = draw(st.sampled_from(good))
+        else:
+            tail = draw(_apdu_tail)
+            if tail is not None:
+                spec["apdu"] = tail
+                malformed = (octet & 3, tail) not in _KNOWN_GOOD  # not known to decode: delivery cannot be demanded
+    if not clean and draw(st.integers(0, 5)) == 0:
         spec["length"] = draw(st.integers(0, 255))
         malformed = True
     if malformed:
@@ -336,9 +348,6 @@ def frame_specs(draw):
 
 
 _sequences = st.tuples(_own, st.lists(frame_specs(), min_size=1, max_size=8), st.integers(0, 2))
-
-_KNOWN_APDUS = None
-
 
 def _seq_oracle(ctx, x) -> None:
     own, specs, yields = x
@@ -660,13 +669,16 @@ def _sched_enum_shard(ctx, delay: float, yields: int) -> None:
 # ---------------------------------------------------------------------------
 
 
+def _shard(ctx, kind: str, *args) -> None:
+    {"matrix": _matrix_shard, "other": _other_codes_shard, "enum": _sched_enum_shard, "seq": _seq_shard, "sched": _sched_shard}[kind](ctx, *args)
+
+
 def run(ctx) -> None:
-    jobs = [(code, group) for code in (0x29, 0x2E, 0x11) for group in (True, False)]
-    parallel(ctx, _matrix_shard, jobs)
-    parallel(ctx, _other_codes_shard, 1)
-    parallel(ctx, _sched_enum_shard, [(d, y) for d in (0.0, 0.5, 3.0) for y in (0, 1, 3)])
-    parallel(ctx, _seq_shard, [(ctx.n(150, 4000),)] * 8)
-    parallel(ctx, _sched_shard, [(ctx.n(250, 8000),)] * 16)
+    jobs: list[tuple] = [("seq", ctx.n(100, 4000))] * 8 + [("sched", ctx.n(200, 8000))] * 16
+    jobs += [("matrix", code, group) for code in (0x29, 0x2E, 0x11) for group in (True, False)]
+    jobs += [("other",)]
+    jobs += [("enum", d, y) for d in (0.0, 0.5, 3.0) for y in (0, 1, 3)]
+    parallel(ctx, _shard, jobs)
     ctx.exhaustive = False
     ctx.notes["matrix_exhaustive"] = "message code x address type x {0, own, foreign} x 256 TPCI octets; all non-L_Data first octets"
 
